@@ -277,3 +277,32 @@ func H_C12_fp() {
 	vrt.Assert("bit-precise: MSE of magnitudes <= 1e6 is finite", f[0] <= 1e300)
 	vrt.Reach("done")
 }
+
+// H_C12_fpbce: BIT-PRECISE (binary64) finiteness and sign of the clipped cross-entropies: for predictions
+// and targets of any finite magnitude <= 1e6 (far outside [0,1] included: they are clipped), BCE / CE is a
+// number >= 0 and finite.  math.Log is an uninterpreted binary64 function with sign and range facts only.
+// A clip that rounds (bound recomputed as p + (bound - p)) lets log(0) = -Inf through.
+func H_C12_fpbce() {
+	B := vrt.Param("b")
+	loss := vrt.SParam("loss")
+	dims := []int{B}
+	if loss == "CE" {
+		dims = []int{B, vrt.Param("c")}
+	}
+	yp, pe := mk("p", dims, vrt.Param("tracked") == 1)
+	yt, te := mk("t", dims, false)
+	for k := range pe {
+		vrt.Assume(vrt.And(pe[k] >= -1e6, pe[k] <= 1e6))
+		vrt.Assume(vrt.And(te[k] >= -1e6, te[k] <= 1e6))
+	}
+	l, err := computeLoss(loss, yp, yt)
+	vrt.Assert("valid inputs accepted", err == nil)
+	if err != nil || l == nil {
+		return
+	}
+	f := vrt.Flat(l)
+	vrt.Assert("bit-precise: the loss is a single number", len(f) == 1)
+	vrt.Assert("bit-precise: the clipped cross-entropy is a number >= 0 (not NaN, not negative)", f[0] >= 0)
+	vrt.Assert("bit-precise: the clipped cross-entropy of finite inputs is finite", f[0] <= 1e300)
+	vrt.Reach("done")
+}
